@@ -207,12 +207,15 @@ func (r *lcRun) markEnd() {
 }
 
 func (r *lcRun) handler(ctx mpx.Context, ch mpx.Channel) status.Status {
+	hbAcquire()
+	defer hbRelease()
 	r.active++
 	defer func() { r.active-- }()
 	r.handlerInv++
 	if r.srvConnCtx == nil {
 		cc, sc := ctx.Conn(), ch.Conn()
 		r.srvConn, r.srvConnCtx = sc, cc
+		hbRelease()
 	}
 	first, st := ch.Receive(r.bg)
 	if !st.OK() {
@@ -251,7 +254,7 @@ func (r *lcRun) handler(ctx mpx.Context, ch mpx.Channel) status.Status {
 func (r *lcRun) listenerTask(i int, cli mpx.Conn) {
 	pl := r.p.Listeners[i]
 	l := r.ls[i]
-	simrt.Sleep(time.Duration(pl.RegUs) * time.Microsecond)
+	hSleep(time.Duration(pl.RegUs) * time.Microsecond)
 	var flag async.Flag
 	var reg func(fn func()) (func(), bool)
 	if pl.Side == "client" {
@@ -263,7 +266,7 @@ func (r *lcRun) listenerTask(i int, cli mpx.Conn) {
 		}
 	} else {
 		// server side: needs a handler to have seen its connection
-		simrt.WaitCondUntil("lc.wait-server-conn", func() bool { return r.srvConnCtx != nil }, time.Now().Add(50*time.Millisecond))
+		hWaitCondUntil("lc.wait-server-conn", func() bool { return r.srvConnCtx != nil }, time.Now().Add(50*time.Millisecond))
 		if r.srvConnCtx == nil {
 			return
 		}
@@ -284,7 +287,7 @@ func (r *lcRun) listenerTask(i int, cli mpx.Conn) {
 	l.registered, l.regOK, l.regDone = true, ok, max(simrt.Step(), 1)
 	simrt.Logf("listener %d registered ok=%v", i, ok)
 	if ok && pl.Unsub {
-		simrt.Sleep(time.Duration(pl.UnsubUs) * time.Microsecond)
+		hSleep(time.Duration(pl.UnsubUs) * time.Microsecond)
 		unsub()
 		l.unsubDone = max(simrt.Step(), 1)
 		simrt.Logf("listener %d unsubscribed", i)
@@ -310,7 +313,7 @@ func (r *lcRun) main() {
 		g.goTask(fmt.Sprintf("ch%d", i), func() {
 			pc := p.Channels[i]
 			c := r.cs[i]
-			simrt.Sleep(time.Duration(pc.StartUs) * time.Microsecond)
+			hSleep(time.Duration(pc.StartUs) * time.Microsecond)
 			ch, st := cli.Channel(r.bg)
 			if !st.OK() {
 				return
@@ -323,7 +326,7 @@ func (r *lcRun) main() {
 				st = ch.Send(r.bg, msg)
 			}
 			c.opened = st.OK()
-			simrt.Sleep(time.Duration(pc.ClientUs) * time.Microsecond)
+			hSleep(time.Duration(pc.ClientUs) * time.Microsecond)
 			c.endEvent = true
 			ch.Free()
 		})
@@ -333,14 +336,14 @@ func (r *lcRun) main() {
 		g.goTask(fmt.Sprintf("lis%d", i), func() { r.listenerTask(i, cli) })
 	}
 	g.goTask("shutdown", func() {
-		simrt.Sleep(time.Duration(p.ShutUs) * time.Microsecond)
+		hSleep(time.Duration(p.ShutUs) * time.Microsecond)
 		simrt.Logf("shutdown begins: %s", p.Shutdown)
 		switch p.Shutdown {
 		case "client-close":
 			r.markEnd()
 			cli.Close()
 		case "server-close":
-			simrt.WaitCondUntil("lc.wait-server-conn", func() bool { return r.srvConn != nil }, time.Now().Add(50*time.Millisecond))
+			hWaitCondUntil("lc.wait-server-conn", func() bool { return r.srvConn != nil }, time.Now().Add(50*time.Millisecond))
 			r.markEnd()
 			if r.srvConn != nil {
 				r.srvConn.Close()
@@ -361,17 +364,17 @@ func (r *lcRun) main() {
 	})
 	g.wait("lc.join")
 	// the connection is closed by now (or closing): everything must wind down
-	simrt.WaitCond("lc.handlers", func() bool { return r.active == 0 })
+	hWaitCond("lc.handlers", func() bool { return r.active == 0 })
 	waitFlagFor(cli.Closed(), 20*time.Second)
-	simrt.WaitQuiescent("lc.settle")
-	simrt.Sleep(time.Second)
-	simrt.WaitQuiescent("lc.settle2")
+	hWaitQuiescent("lc.settle")
+	hSleep(time.Second)
+	hWaitQuiescent("lc.settle2")
 	r.handlerObj = simpool.GetsByType["*mpx.channelHandler"]
 	cli.Close()
 	simrt.Recv(0, srv.Stop())
-	simrt.WaitQuiescent("lc.teardown")
+	hWaitQuiescent("lc.teardown")
 	r.bg.Cancel()
-	simrt.WaitQuiescent("lc.teardown2")
+	hWaitQuiescent("lc.teardown2")
 }
 
 func (lifecycleScn) Shrink(plan any) []any {
